@@ -1,3 +1,5 @@
 pub mod arr;
 pub mod cost;
 pub mod uni;
+pub mod dem;
+pub mod ros;
